@@ -544,8 +544,10 @@ class AsyncMapUnordered(FuncSpec):
             sel = ["S2"]
         elif "raise-only-if" in name:
             sel = ["S3"]
+        elif "H13" in name or "exit-complete" in name or "H11" in name:
+            sel = ["S4", "S5"]
         else:
-            sel = ["S1", "S2", "S3"]
+            sel = ["S1", "S2", "S3", "S4", "S5"]
         return f"""
 import sys
 sys.path.insert(0, '/verif')
@@ -555,6 +557,8 @@ S = dict(
   S1=dict(n=n, batch_size=10, use_backups=True, backup_for=[], rounds=[[("orig", i, "ok")] for i in range(n)]),
   S2=dict(n=12, batch_size=None, use_backups=True, backup_for=[3], rounds=[[("orig", i, "ok")] for i in range(12) if i != 3] + [[("orig", 3, "ok"), ("backup", 3, "ok")]]),
   S3=dict(n=12, batch_size=None, use_backups=True, backup_for=[3], rounds=[[("orig", i, "ok")] for i in range(12) if i != 3] + [[("backup", 3, "ok"), ("orig", 3, "fail")]]),
+  S4=dict(n=6, batch_size=2, use_backups=False, rounds=[[("orig", 0, "ok"), ("orig", 1, "ok")], [("orig", 2, "ok"), ("orig", 3, "ok")], [("orig", 4, "ok"), ("orig", 5, "ok")]]),
+  S5=dict(n=5, batch_size=2, use_backups=False, rounds=[[("orig", 0, "ok"), ("orig", 1, "ok")], [("orig", 2, "ok"), ("orig", 3, "ok")], [("orig", 4, "fail")]]),
 )
 reproduced, detail = False, ""
 for k in {sel!r}:
